@@ -194,7 +194,19 @@ func main() {
 		Mismatch: "C08_corr.mismatches", Scope: "N", PerShard: 400}
 	id := 0
 	var heavy, light []string
+	// mode 0: full (Coq cases + corruptions); 1: light (Coq cases for the honest message and
+	// branches only); 2: Go-side property oracle only (used to sweep many large blocks)
+	mode := 0
+	var fixedTxs []interfaces.Transaction
+	logc := func(id int, v interface{}) {
+		if mode != 2 {
+			st.LogCase(run.Out, id, v)
+		}
+	}
 	add := func(sym bool, term string) {
+		if mode == 2 {
+			return
+		}
 		if sym {
 			light = append(light, term)
 		} else {
@@ -231,7 +243,11 @@ func main() {
 			if typeFilter && pattern[i] {
 				k = 2
 			}
-			txs[i] = mkTx(k, rng)
+			if fixedTxs != nil {
+				txs[i] = fixedTxs[i]
+			} else {
+				txs[i] = mkTx(k, rng)
+			}
 			ids[i] = txs[i].Hash()
 		}
 		root, _ := refRoot(ids, nil)
@@ -289,11 +305,15 @@ func main() {
 		for i, b := range mb.Flags {
 			fl[i] = uint32(b)
 		}
-		inp := map[string]interface{}{"n": n, "pattern": fmt.Sprint(pat), "typeFilter": typeFilter}
+		patStr := fmt.Sprint(pat)
+		if n > 40 {
+			patStr = fmt.Sprintf("matched=%v", wantIdx)
+		}
+		inp := map[string]interface{}{"n": n, "pattern": patStr, "typeFilter": typeFilter}
 		id++
 		add(sym, fmt.Sprintf("CBuild %d %s %s %s %d %s %s %s", id, lib.CoqBool(sym), e.hs(ids), ints(pat),
 			mb.Transactions, e.hs(mh), ints(fl), ints(midx)))
-		st.LogCase(run.Out, id, map[string]interface{}{"op": "NewMerkleBlock", "in": inp, "hashes": len(mh), "flags": fmt.Sprint(fl), "matched": midx})
+		logc(id, map[string]interface{}{"op": "NewMerkleBlock", "in": inp, "hashes": len(mh), "flags": fmt.Sprint(fl), "matched": midx})
 		st.Count(fmt.Sprintf("build:%d:%v:%v", n, pat, typeFilter), anyMatch, "NewMerkleBlock")
 		if fmt.Sprint(midx) != fmt.Sprint(wantIdx) {
 			st.Fail("NewMerkleBlock:matched-indexes", "matched indexes differ from the filter's matches", inp)
@@ -312,9 +332,9 @@ func main() {
 			}
 			id++
 			add(sym, fmt.Sprintf("CCheck %d %s %d %s %s %s %d %s", id, lib.CoqBool(sym), m.Transactions, e.h(rootUsed), ints(f), e.hs(h), res, e.hs(got)))
-			st.LogCase(run.Out, id, map[string]interface{}{"op": "CheckMerkleBlock", "in": inp, "corruption": what, "numtx": m.Transactions, "res": res, "returned": len(got)})
+			logc(id, map[string]interface{}{"op": "CheckMerkleBlock", "in": inp, "corruption": what, "numtx": m.Transactions, "res": res, "returned": len(got)})
 			st.Count(fmt.Sprintf("check:%d:%v:%s", n, pat, what), anyMatch || corrupted, "check:"+kindOf(what))
-			ci := map[string]interface{}{"n": n, "pattern": fmt.Sprint(pat), "corruption": what}
+			ci := map[string]interface{}{"n": n, "pattern": patStr, "corruption": what}
 			if res == 2 {
 				st.Fail("CheckMerkleBlock:panic", "CheckMerkleBlock panicked", ci)
 			}
@@ -349,71 +369,73 @@ func main() {
 		doCheck(cloneMB(mb, root), root, "none", false)
 
 		// ---- corruptions
-		nbits := len(mb.Flags) * 8
-		for b := 0; b < nbits; b++ {
-			if !(nbits <= 8 || rng.Chance(500/nbits) || (run.Thorough() && (nbits <= 16 || rng.Chance(30)))) {
-				continue
-			}
-			c := cloneMB(mb, root)
-			c.Flags[b/8] ^= 1 << uint(b%8)
-			doCheck(c, root, fmt.Sprintf("flag-bit:%d", b), true)
-		}
-		for k := range mb.Hashes {
-			if !(len(mb.Hashes) <= 2 || rng.Chance(250/len(mb.Hashes)) || (run.Thorough() && rng.Chance(50))) {
-				continue
-			}
-			c := cloneMB(mb, root)
-			bit := rng.Intn(256)
-			c.Hashes[k][bit/8] ^= 1 << uint(bit%8)
-			doCheck(c, root, fmt.Sprintf("hash-bit:%d:%d", k, bit), true)
-		}
-		{ // a hash replaced by a copy of its neighbour (duplicate siblings)
-			if len(mb.Hashes) >= 2 {
+		if mode == 0 {
+			nbits := len(mb.Flags) * 8
+			for b := 0; b < nbits; b++ {
+				if !(nbits <= 8 || rng.Chance(500/nbits) || (run.Thorough() && (nbits <= 16 || rng.Chance(30)))) {
+					continue
+				}
 				c := cloneMB(mb, root)
-				k := rng.Intn(len(mb.Hashes) - 1)
-				*c.Hashes[k+1] = *c.Hashes[k]
-				doCheck(c, root, fmt.Sprintf("hash-dup:%d", k), true)
+				c.Flags[b/8] ^= 1 << uint(b%8)
+				doCheck(c, root, fmt.Sprintf("flag-bit:%d", b), true)
 			}
-		}
-		for _, d := range []int64{-1, 1, int64(n), 10000 - int64(n), 10001 - int64(n), 1 << 20, 1<<31 - int64(n)} {
-			nn := int64(n) + d
-			if nn < 0 || nn > 1<<31 {
-				continue
+			for k := range mb.Hashes {
+				if !(len(mb.Hashes) <= 2 || rng.Chance(250/len(mb.Hashes)) || (run.Thorough() && rng.Chance(50))) {
+					continue
+				}
+				c := cloneMB(mb, root)
+				bit := rng.Intn(256)
+				c.Hashes[k][bit/8] ^= 1 << uint(bit%8)
+				doCheck(c, root, fmt.Sprintf("hash-bit:%d:%d", k, bit), true)
 			}
-			if d > 1000 && !(rng.Chance(15) || run.Thorough()) {
-				continue
+			{ // a hash replaced by a copy of its neighbour (duplicate siblings)
+				if len(mb.Hashes) >= 2 {
+					c := cloneMB(mb, root)
+					k := rng.Intn(len(mb.Hashes) - 1)
+					*c.Hashes[k+1] = *c.Hashes[k]
+					doCheck(c, root, fmt.Sprintf("hash-dup:%d", k), true)
+				}
 			}
-			c := cloneMB(mb, root)
-			c.Transactions = uint32(nn)
-			doCheck(c, root, fmt.Sprintf("numtx:%d", nn), true)
-		}
-		{
-			c := cloneMB(mb, root)
-			c.Hashes = c.Hashes[:len(c.Hashes)-1]
-			doCheck(c, root, "drop-last-hash", true)
-			c = cloneMB(mb, root)
-			c.Hashes = c.Hashes[1:]
-			doCheck(c, root, "drop-first-hash", true)
-			c = cloneMB(mb, root)
-			c.Flags = c.Flags[:len(c.Flags)-1]
-			doCheck(c, root, "drop-last-flag-byte", true)
-			c = cloneMB(mb, root)
-			x := ids[rng.Intn(n)]
-			c.Hashes = append(c.Hashes, &x)
-			c.Flags = append(c.Flags, 0xff)
-			doCheck(c, root, "trailing-garbage", true)
-		}
-		{ // foreign roots: one flipped bit, and the root of another list
-			r2 := root
-			bit := rng.Intn(256)
-			r2[bit/8] ^= 1 << uint(bit%8)
-			doCheck(cloneMB(mb, r2), r2, "root-bit", true)
-			if n > 1 {
-				r3, _ := refRoot(ids[:n-1], nil)
-				doCheck(cloneMB(mb, r3), r3, "root-of-prefix", true)
+			for _, d := range []int64{-1, 1, int64(n), 10000 - int64(n), 10001 - int64(n), 1 << 20, 1<<31 - int64(n)} {
+				nn := int64(n) + d
+				if nn < 0 || nn > 1<<31 {
+					continue
+				}
+				if d > 1000 && !(rng.Chance(15) || run.Thorough()) {
+					continue
+				}
+				c := cloneMB(mb, root)
+				c.Transactions = uint32(nn)
+				doCheck(c, root, fmt.Sprintf("numtx:%d", nn), true)
 			}
-		}
+			{
+				c := cloneMB(mb, root)
+				c.Hashes = c.Hashes[:len(c.Hashes)-1]
+				doCheck(c, root, "drop-last-hash", true)
+				c = cloneMB(mb, root)
+				c.Hashes = c.Hashes[1:]
+				doCheck(c, root, "drop-first-hash", true)
+				c = cloneMB(mb, root)
+				c.Flags = c.Flags[:len(c.Flags)-1]
+				doCheck(c, root, "drop-last-flag-byte", true)
+				c = cloneMB(mb, root)
+				x := ids[rng.Intn(n)]
+				c.Hashes = append(c.Hashes, &x)
+				c.Flags = append(c.Flags, 0xff)
+				doCheck(c, root, "trailing-garbage", true)
+			}
+			{ // foreign roots: one flipped bit, and the root of another list
+				r2 := root
+				bit := rng.Intn(256)
+				r2[bit/8] ^= 1 << uint(bit%8)
+				doCheck(cloneMB(mb, r2), r2, "root-bit", true)
+				if n > 1 {
+					r3, _ := refRoot(ids[:n-1], nil)
+					doCheck(cloneMB(mb, r3), r3, "root-of-prefix", true)
+				}
+			}
 
+		}
 		// ---- branches of matched transactions
 		for _, i := range wantIdx {
 			if !(len(wantIdx) <= 3 || rng.Chance(300/len(wantIdx)) || run.Thorough()) {
@@ -423,7 +445,7 @@ func main() {
 			var br *bloom.MerkleBranch
 			var err error
 			p, v := lib.Recover(func() { br, err = bloom.GetTxMerkleBranch(cloneMB(mb, root), &txid) })
-			bi := map[string]interface{}{"n": n, "pattern": fmt.Sprint(pat), "i": i}
+			bi := map[string]interface{}{"n": n, "pattern": patStr, "i": i}
 			if p || err != nil {
 				st.Fail("GetTxMerkleBranch:matched", fmt.Sprintf("no branch for a matched transaction (panic=%v %v err=%v)", p, v, err), bi)
 				continue
@@ -431,7 +453,7 @@ func main() {
 			got := auxpow.GetMerkleRoot(txid, br.Branches, br.Index)
 			id++
 			add(sym, fmt.Sprintf("CBranch %d %s %s %d %s %d %s", id, lib.CoqBool(sym), e.hs(ids), i, e.hs(br.Branches), br.Index, e.h(got)))
-			st.LogCase(run.Out, id, map[string]interface{}{"op": "GetTxMerkleBranch", "in": bi, "len": len(br.Branches), "index": br.Index})
+			logc(id, map[string]interface{}{"op": "GetTxMerkleBranch", "in": bi, "len": len(br.Branches), "index": br.Index})
 			st.Count(fmt.Sprintf("branch:%d:%v:%d", n, pat, i), true, "GetTxMerkleBranch")
 			if got != root {
 				st.Fail("GetTxMerkleBranch:root", "the branch of a matched transaction does not evaluate to the block's merkle root", bi)
@@ -537,6 +559,71 @@ func main() {
 			p[i] = rng.Chance(40)
 		}
 		doBlock(n, p, true, true)
+	}
+	// ---- large blocks: more than 64 transactions, counts around the multiples of 64 (and of
+	// the smaller powers of two), sparse patterns: a single match at every position, matches
+	// only in the trailing partial group of 2..128 leaves, an early match plus a tail match.
+	// A few are tied to the Coq model (mode 1), the sweep is judged by the property oracle
+	// "recovered set = matched set, branch evaluates to the root" (mode 2).
+	{
+		largeNs := []int{63, 64, 65, 66, 100, 127, 128, 129, 130, 191, 192, 193, 200, 255, 256, 257, 300}
+		if run.Thorough() {
+			for n := 34; n <= 330; n += 1 + rng.Intn(4) {
+				largeNs = append(largeNs, n)
+			}
+		}
+		largeBlocks := 0
+		for _, n := range largeNs {
+			fixedTxs = make([]interfaces.Transaction, n)
+			for i := range fixedTxs {
+				fixedTxs[i] = mkTx(0, rng)
+			}
+			single := func(is ...int) []bool {
+				p := make([]bool, n)
+				for _, i := range is {
+					if i >= 0 && i < n {
+						p[i] = true
+					}
+				}
+				return p
+			}
+			// tied to the model
+			mode = 1
+			tailStart := n - n%64
+			if tailStart == n {
+				tailStart = n - 1
+			}
+			doBlock(n, single(n-1), true, false)
+			doBlock(n, single(5, tailStart+(n-tailStart)/2), true, false)
+			// swept by the oracle
+			mode = 2
+			for i := 0; i < n; i++ {
+				doBlock(n, single(i), true, false)
+				largeBlocks++
+			}
+			for _, g := range []int{2, 4, 8, 16, 32, 64, 128} {
+				if n%g == 0 || g > n {
+					continue
+				}
+				p := make([]bool, n)
+				for i := n - n%g; i < n; i++ {
+					p[i] = true
+				}
+				doBlock(n, p, true, false)
+				doBlock(n, single(rng.Intn(n-n%g), n-1-rng.Intn(n%g)), true, false)
+				largeBlocks += 2
+			}
+			for k := 0; k < 6; k++ {
+				p := make([]bool, n)
+				for j := 0; j < 1+rng.Intn(4); j++ {
+					p[rng.Intn(n)] = true
+				}
+				doBlock(n, p, true, false)
+				largeBlocks++
+			}
+		}
+		mode, fixedTxs = 0, nil
+		st.Extra["large_blocks_swept_by_oracle"] = largeBlocks
 	}
 	st.Extra["successful_verifications"] = okChecks
 	st.Extra["corrupted_messages_accepted"] = corruptAccepted
